@@ -45,6 +45,14 @@ def gen_query(rng):
     if rng.random() < 0.2:
         pivot = [pivot[0], ir.Key('index', i2 + 1)]
     q = ir.Query(targets=targets, table='t', group_by=group_by, pivot_by=pivot, where=qg.where(0.3))
+    if rng.random() < 0.4:
+        # ORDER BY in front of the pivot: any keys, the first pivot column possibly as a secondary key
+        names = [ir.target_name(t) for t in targets]
+        order = []
+        cand = [i for i, t in enumerate(targets) if t.expr.type in gen.ORDERABLE]
+        for i in rng.sample(cand, min(len(cand), rng.randint(1, 3))):
+            order.append(ir.Key('index', i + 1, rng.choice([None, False, True])))
+        q.order_by = order or None
     return q, i1, i2
 
 
@@ -65,7 +73,9 @@ def run_case(ctx, n, mon):
     route = 'text' if rng.random() < 0.15 else 'ast'
     text = ir.to_text(q, _LIT)
     case = {'replay': ['case', n], 'statement': text, 'route': route, 'columns': mt.columns, 'rows': show_rows(mt.rows, 50)}
-    plain = ir.Query(targets=q.targets, table='t', group_by=q.group_by, where=q.where)
+    plain = ir.Query(targets=q.targets, table='t', group_by=q.group_by, where=q.where, order_by=q.order_by)
+    if q.order_by:
+        ctx.count('obs.pivot_with_order_by')
     try:
         pnames, ptypes, prows = engine.run(conn, ir.to_text(q) if route == 'text' else ir.to_ast(q))
         unames, utypes, urows = engine.run(conn, ir.to_ast(plain))
@@ -198,7 +208,7 @@ def replay(ctx, case):
 def finalize(merged):
     c = merged['counters']
     reasons = []
-    for k in ('obs.cases', 'obs.null_key_cases', 'obs.sparse_cases', 'obs.remaining_columns.1', 'obs.remaining_columns.3', 'obs.pivot_by_name',
+    for k in ('obs.cases', 'obs.pivot_with_order_by', 'obs.null_key_cases', 'obs.sparse_cases', 'obs.remaining_columns.1', 'obs.remaining_columns.3', 'obs.pivot_by_name',
               'obs.pivot_by_position', 'obs.unpivot_checks', 'obs.invalid_references_rejected', 'obs.ledger_cases'):
         if c.get(k, 0) == 0:
             reasons.append(f'{k} == 0')
